@@ -49,6 +49,7 @@ type c10H struct {
 	hNo    map[restic.BlobHandle]int
 	nfile  int
 	beforeExecute func()
+	faultMode     string
 }
 
 type c10Abs struct {
